@@ -259,14 +259,25 @@ class Table(Model):
             return list(self.rows[idx])
         if isinstance(idx, tuple) and len(idx) == 2 and isinstance(idx[0], slice) and isinstance(idx[1], int):
             return [r[idx[1]] for r in self.rows[idx[0]]]
+        if isinstance(idx, tuple) and len(idx) == 2 and isinstance(idx[0], slice) and isinstance(idx[1], slice):
+            return Table([tuple(r[idx[1]]) for r in self.rows[idx[0]]])
+        if isinstance(idx, slice):
+            return Table(self.rows[idx])
+        if isinstance(idx, (list, tuple)) and all(isinstance(i, int) and not isinstance(i, bool) for i in idx):
+            return Table([self.rows[i] for i in idx])          # fancy indexing with a list of row numbers (e.g. the result of argsort)
         raise Unsupported("descriptor table indexed with %r" % (idx,))
+
+    def __iter__(self):
+        return iter([list(r) for r in self.rows])
 
     @property
     def shape(self):
         return (len(self.rows), 3)
 
 
-DESCRIPTORS = {"hydro": [("1", " density", " d"), ("2", " velocity_x", " d"), ("3", " pressure ", " d")],
+# the hydro descriptor has more than 9 variables and its ivar column is NOT padded ("9", "10", "11"): the variables are stored in the order of
+# the lines (= numeric order of ivar); ordering the lines by the ivar TEXT would read "10" and "11" before "2"
+DESCRIPTORS = {"hydro": [("1", " density", " d"), ("2", " velocity_x", " d"), ("3", " pressure ", " d")] + [(str(i), " scalar_%02d" % i, " d") for i in range(4, 12)],
                "part": [("1", " position_x", " d"), ("2", " identity", " i"), ("3", " family", " b")],
                "rt": [("1", " photon_density_1", " d"), ("2", " photon_flux_1_x", " d")]}
 READERS = {"amr": "io/amr.py::AmrReader", "hydro": "io/hydro.py::HydroReader", "grav": "io/grav.py::GravReader", "rt": "io/rt.py::RtReader",
@@ -295,6 +306,7 @@ def init_hooks(log, files_present=True, nout=7):
         return ["CPULIST", len([x for x in log if x[0] == "hilbert_cpu_list"])]
     return {"ext": {"os.path.exists": exists, "os.path.join": osp.join, "os.path.basename": osp.basename, "numpy.loadtxt": loadtxt,
                     "numpy.genfromtxt": loadtxt, "numpy.zeros": lambda *a, **k: Sym(("zeros",)), "numpy.float64": "float64",
+                    "numpy.argsort": lambda x, *a, **k: sorted(range(len(x)), key=lambda i: x[i]) if isinstance(x, list) and all(isinstance(v, (str, int, float)) for v in x) else (_ for _ in ()).throw(Unsupported("np.argsort(%r)" % (x,))),
                     "glob.glob": lambda pat: ["PATH/output_00007", "PATH/output_00003"] if pat == osp.join("PATH", "output*") else []},
             "pkgfunc": {"io/hilbert.py::hilbert_cpu_list": hilbert}, "class": {}, "globals": {}}
 
@@ -325,10 +337,12 @@ def check_reader_initialize(run, tree):
                 if ret is not None:
                     problems.append("initialize returns %r" % (ret,))
                 want_vars = {"amr": ["level", "cpu", "dx", "position_x", "position_y"], "grav": ["grav_potential", "grav_acceleration_x", "grav_acceleration_y"],
-                             "hydro": ["density", "velocity_x", "pressure"], "part": ["position_x", "identity", "family"], "rt": ["photon_density_1", "photon_flux_1_x"]}[name]
+                             "hydro": ["density", "velocity_x", "pressure"] + ["scalar_%02d" % i for i in range(4, 12)], "part": ["position_x", "identity", "family"], "rt": ["photon_density_1", "photon_flux_1_x"]}[name]
                 vs = r._attrs.get("variables", {})
                 if sorted(vs) != sorted(want_vars):
                     problems.append("variables %s (required %s)" % (sorted(vs), sorted(want_vars)))
+                elif name in DESCRIPTORS and list(vs) != want_vars:
+                    problems.append("variables in the order %s (required the order of the descriptor lines, which is the order of the records in the files: %s)" % (list(vs), want_vars))
                 elif name in DESCRIPTORS and [vs[k]["type"] for k in want_vars] != [row[2].strip() for row in DESCRIPTORS[name]]:
                     problems.append("variable types %s" % [vs[k]["type"] for k in want_vars])
                 want_path = {"grav": ("exists", "PATH/output_00007/grav_00007.out00001"), "hydro": ("loadtxt", "PATH/output_00007/hydro_file_descriptor.txt"),
@@ -574,8 +588,10 @@ def check_sink(run, tree):
         return ret, state, reader
     new = [" # id,msink,x,y,z,vx,vy,vz,lx\n", " # 1,m,l,l,l,l t**-1,l t**-1,l t**-1,m l**2 t**-1\n"]
     legacy = [" # id,msink,x,y,z\n", " # 1,[Msol],[cm],[cm],[cm]\n"]
+    # legacy units spelled like the code-unit letters: [m] is metres and [t] tonnes there, not the code mass and the code time
+    legacy_letters = [" # id,msink,x,y,z\n", " # 1,[t],[m],[m],[m]\n"]
     for label, lines, nsinks in (("code-unit header", new, 3), ("legacy header with physical units", legacy, 3), ("code-unit header, a single sink", new, 1),
-                                 ("legacy header, a single sink", legacy, 1)):
+                                 ("legacy header, a single sink", legacy, 1), ("legacy header whose units are the words m and t", legacy_letters, 3)):
         construct = "%s.initialize[%s]" % (SINK, label)
         try:
             try:
